@@ -4,7 +4,12 @@
 // event and may snapshot the directories (crash image).
 package iorec
 
-import "github.com/XiXi-2024/xixi-kv/verifrt/sched"
+import (
+	"errors"
+	"syscall"
+
+	"github.com/XiXi-2024/xixi-kv/verifrt/sched"
+)
 
 type Event struct {
 	Seq   int
@@ -26,7 +31,24 @@ var (
 	SchedPoints bool
 
 	seq int
+
+	// EnvFailure is set when a REAL call (not an injected fault) failed for lack of a machine resource
+	// (memory, mappings, descriptors, space): whatever the execution then observes says nothing about the
+	// code under test, so the harness reports a harness error instead of a verdict.
+	EnvFailure string
 )
+
+func noteEnv(op, path string, err error) {
+	if err == nil || EnvFailure != "" {
+		return
+	}
+	for _, e := range []error{syscall.ENOMEM, syscall.EMFILE, syscall.ENFILE, syscall.ENOSPC} {
+		if errors.Is(err, e) {
+			EnvFailure = op + " " + path + ": " + err.Error()
+			return
+		}
+	}
+}
 
 func Reset() { seq = 0 }
 
@@ -37,7 +59,9 @@ func Do(op, path, path2 string, off, n int64, f func() error) error {
 		sched.Yield()
 	}
 	if Before == nil && After == nil {
-		return f()
+		err := f()
+		noteEnv(op, path, err)
+		return err
 	}
 	var err error
 	injected := false
@@ -48,6 +72,7 @@ func Do(op, path, path2 string, off, n int64, f func() error) error {
 	}
 	if !injected {
 		err = f()
+		noteEnv(op, path, err)
 	}
 	if After != nil {
 		ev := &Event{Seq: seq, Op: op, Path: path, Path2: path2, Off: off, N: n}
